@@ -358,7 +358,14 @@ def run_vrptw(case, policy, o: Outcome | None, ref: Ref, record=True):
             veh_arg = vehs
             kw_cap = {}
             if case.get("as_tuples"):  # the documented tuple form of customers, and an int fleet when capacities are uniform
-                cust_arg = [(c.id, c.x, c.y, c.demand, c.tw_start, c.tw_end, c.service_time, c.required_vehicles) for c in custs[1:]]
+                cust_arg = []
+                defaults = (None, None, None, 0.0, 0.0, INF, 0.0, 1)
+                for c in custs[1:]:
+                    t = (c.id, c.x, c.y, c.demand, c.tw_start, c.tw_end, c.service_time, c.required_vehicles)
+                    k = 8
+                    while k > 3 and t[k - 1] == defaults[k - 1]:  # the documented short forms: trailing defaults may be omitted
+                        k -= 1
+                    cust_arg.append(t[:k])
                 caps = {v.capacity for v in vehs}
                 if len(caps) == 1:
                     veh_arg = len(vehs)
